@@ -11,3 +11,9 @@ pub use processor::{
     QueryInputError, QueryKillStatus, QueryKilled, QueryStatusError,
 };
 pub use state::{QueryStatus, min_status};
+
+// Verification hook (guard: `--cfg ipa_verif`, test builds only). Compiled out unless the guard is set.
+// Makes the hook module of the private `runner` module nameable from the crate root.
+#[cfg(all(test, ipa_verif))]
+#[allow(unused_imports)]
+pub(crate) use runner::ipa_verif_h5;
